@@ -222,9 +222,10 @@ def _nonzero(F, expr, fn, _depth=0):
             return all(_nonzero(F, e, fn, _depth + 1) for k, e, i in ds)
         return False
     if isinstance(expr, ast.Attribute) and expr.attr == 'code':
-        tests = [t for t, pos in F.guards_pol(expr, fn) if pos]
-        return any(has_call(F.atoms(t, fn), 'isinstance') and has(
-            F.atoms(t, fn), 'ScriptExitError') for t in tests)
+        tests = [(t, f_, b_) for t, pos, f_, b_ in F.guard_leaves(expr, fn)
+                 if pos]
+        return any(has_call(F.atoms(t, f_, b_), 'isinstance') and has(
+            F.atoms(t, f_, b_), 'ScriptExitError') for t, f_, b_ in tests)
     if isinstance(expr, ast.Call):
         callee = F.flow.resolve_call(expr, fn)
         if callee is None:
